@@ -7,7 +7,9 @@ def run(report):
     # "errors only where a statement or block is expected": recovery cuts the stack back to a file_input / suite entry (or the
     # root), and the removed entries' nodes go, as one error node, into that entry (contracts/parser.py)
     verify_keys(report, ['parso.python.parser.Parser.error_recovery.current_suite', 'parso.python.parser.Parser._stack_removal',
-                         'parso.python.parser.Parser.error_recovery#recover'])
+                         'parso.python.parser.Parser.error_recovery#recover',
+                         # the collapse convention: an entry with one node contributes the node itself, otherwise a new node
+                         'parso.parser.BaseParser._pop', 'parso.python.parser.Parser.convert_node'])
     report.assume("engine stack invariant I_stack (every stack entry spells a run of its rule's automaton) is stated in "
                   "DESIGN 4/C05 but not discharged deductively; tree conformance rests on the T table facts plus the "
                   "bounded conformance monitor",
